@@ -79,7 +79,7 @@ theorem step_mu_decreases {c : Cfg} {s s' : St} {e : Ev} (hA : InvA c s) (hq : Q
       have w0 : weight .consumed = 0 := rfl
       omega
     · cases hs
-  | abort i =>
+  | abort i t =>
     simp only [step] at hs; split at hs
     · rename_i hc; cases hs
       have := sum_map_upd s.phase i .posted c.n hc.1
@@ -135,7 +135,7 @@ theorem invP_step {c s e s'} (_hA : InvA c s) (h : InvP c s) (hs : step c s e = 
       · subst hji; simp at hp
       · simp only [hji, if_false] at hp; exact h j hj hp
     · cases hs
-  | abort i =>
+  | abort i t =>
     simp only [step] at hs; split at hs
     · cases hs; intro j hj hp
       simp only [upd_apply] at hp
@@ -224,7 +224,7 @@ theorem progress_after_return {c order pre evs s} (hr : run c (init c order pre)
       refine ⟨.finish i .ok, ⟨by simp, by simp⟩, ?_⟩
       simp only [step]; rw [if_pos ⟨hi, hph, by decide⟩]; rfl
     | waiting =>
-      refine ⟨.abort i, ⟨by simp, by simp⟩, ?_⟩
+      refine ⟨.abort i false, ⟨by simp, by simp⟩, ?_⟩
       simp only [step]; rw [if_pos ⟨hi, hph, Or.inr (held_released_or_cancelled hr hm i hi hph)⟩]; rfl
 
 /-- **termination**: after the return, every continuation without further cancellations has at most
